@@ -674,7 +674,7 @@ func checkNoPanic(c *Ctx, roots []*ssa.Function) {
 	// positive control: the same predicate must find netip.MustParseAddr under parseTarget
 	var ctl []*ssa.Function
 	if f := c.P.Func("traceroute.parseTarget"); f != nil {
-		ctl = append(ctl, f)
+		ctl = ModReach(c.P, f)
 	}
 	R.Floor("R09.3:control(Must* found under parseTarget)", len(scan(ctl)), 1)
 }
